@@ -4,7 +4,7 @@
     does not depend on the order in which the elements arrive. *)
 From stdpp Require Import gmap list sorting.
 From Coq Require Import NArith ZArith Lia.
-From VFS Require Import Core.Types Base.MemFS.
+From VFS Require Import Core.Types Base.MemFS Proofs.MemProofs.
 
 Lemma name_leb_refl a : name_leb a a = true.
 Proof. induction a as [|x a IH]; cbn; [reflexivity|]. now rewrite N.ltb_irrefl. Qed.
@@ -73,4 +73,34 @@ Proof.
   rewrite <- (insert_delete_insert s x g).
   rewrite (map_to_list_insert (delete x s) x g) by apply lookup_delete.
   rewrite <- (map_to_list_delete s x f Hx). reflexivity.
+Qed.
+
+(** more generally the listing of d depends only on which children of d exist *)
+Lemma children_raw_nodup (s : memfs) (p : path) : NoDup (omap (fun kv => child_of p (fst kv)) (map_to_list s)).
+Proof.
+  assert (Hk : NoDup (map fst (map_to_list s))) by apply NoDup_fst_map_to_list.
+  induction (map_to_list s) as [|[k f] l IH]; cbn; [constructor|].
+  cbn in Hk. inversion Hk as [|? ? Hnin Hnd]; subst.
+  destruct (child_of p k) as [n|] eqn:E; cbn; [|auto].
+  constructor; [|auto].
+  rewrite elem_of_list_omap. intros ([k' f'] & Hin & Hc).
+  apply MemProofs.child_of_spec in E. apply MemProofs.child_of_spec in Hc. cbn in Hc. subst.
+  apply Hnin. apply elem_of_list_fmap. exists (p ++ [n], f'). auto.
+Qed.
+
+Lemma children_raw_elem (s : memfs) (p : path) n :
+  n ∈ omap (fun kv => child_of p (fst kv)) (map_to_list s) <-> is_Some (s !! (p ++ [n])).
+Proof.
+  rewrite elem_of_list_omap. split.
+  - intros ([k f] & Hin & Hc). apply MemProofs.child_of_spec in Hc. cbn in Hc. subst k.
+    apply elem_of_map_to_list in Hin. eauto.
+  - intros [f Hf]. exists (p ++ [n], f). split; [now apply elem_of_map_to_list|]. now apply MemProofs.child_of_spec.
+Qed.
+
+Lemma mem_children_ext (s s' : memfs) (d : path) :
+  (forall n, is_Some (s !! (d ++ [n])) <-> is_Some (s' !! (d ++ [n]))) -> mem_children s d = mem_children s' d.
+Proof.
+  intros H. unfold mem_children. apply sort_names_perm.
+  apply NoDup_Permutation; [apply children_raw_nodup|apply children_raw_nodup|].
+  intros n. rewrite !children_raw_elem. apply H.
 Qed.
